@@ -196,30 +196,39 @@ class Code310(Code38):
         co_linetable into the compacted 3.10-encoded format described
         in lnotab_notes.txt.
 
+        Each entry of that format gives the length of a range of
+        bytecode and the line of that range relative to the line of
+        the previous range; the last range ends at the end of co_code.
         """
-        co_linetable = b""
+        co_linetable = bytearray()
 
         prev_line_number = self.co_firstlineno
-        prev_offset = 0
-        offset_diff = 0
+        table = list(self.co_linetable)
+        code_len = len(self.co_code)
 
-        for offset, line_number in self.co_linetable:
+        for i, (offset, line_number) in enumerate(table):
+            if i + 1 < len(table):
+                end_offset = table[i + 1][0]
+            else:
+                end_offset = max(code_len, offset)
             line_diff = line_number - prev_line_number
             prev_line_number = line_number
-            offset_diff = offset - prev_offset
-            prev_offset = offset
-            while offset_diff >= 256:
-                co_linetable += bytearray([255, 0])
-                offset_diff -= 255
-            co_linetable += bytearray([offset_diff, line_diff % 256])
-            while line_diff >= 127:
+            offset_diff = end_offset - offset
+            # Line deltas are signed bytes and -128 means "no line";
+            # larger steps go into zero-length ranges.
+            while line_diff > 127:
                 co_linetable += bytearray([0, 127])
                 line_diff -= 127
             while line_diff < -127:
-                co_linetable += bytearray([0, -127])
-                line_diff -= 127
+                co_linetable += bytearray([0, -127 & 0xFF])
+                line_diff += 127
+            while offset_diff > 254:
+                co_linetable += bytearray([254, line_diff & 0xFF])
+                line_diff = 0
+                offset_diff -= 254
+            co_linetable += bytearray([offset_diff, line_diff & 0xFF])
 
-        self.co_linetable = co_linetable
+        self.co_linetable = bytes(co_linetable)
 
     def freeze(self):
         for field in "co_consts co_names co_varnames co_freevars co_cellvars".split():
